@@ -281,6 +281,27 @@ func (x *Exec) builtin(s *State, b *ssa.Builtin, args []Value, ins *ssa.Call) []
 		}
 		return one(args[0])
 	}
+	if b.Name() == "String" {
+		// unsafe.String(&b[i], n): the n bytes of the array starting at element i
+		p, ok := args[0].(Ptr)
+		n, okN := constInt(args[1])
+		if ok && okN && p.Obj != 0 && len(p.Path) > 0 {
+			base := Ptr{Obj: p.Obj, Path: p.Path[:len(p.Path)-1]}
+			off := p.Path[len(p.Path)-1]
+			if arr, isA := s.load(base).(*ArrayVal); isA && off >= 0 && off+n <= len(arr.E) {
+				out := Str{B: make([]*smt.Term, n)}
+				for i := 0; i < n; i++ {
+					t, isT := arr.E[off+i].(*smt.Term)
+					if !isT {
+						unsupported("unsafe.String over non-byte elements")
+					}
+					out.B[i] = t
+				}
+				return one(out)
+			}
+		}
+		unsupported("unsafe.String with this operand shape")
+	}
 	unsupported("builtin %s", b.Name())
 	return nil
 }
